@@ -400,7 +400,17 @@ class SupervisedTimeSeriesForest(ForestClassifier, BaseClassifier):
             axis=1,
         )
 
-        return estimator.predict_proba(transformed_x)
+        probas = estimator.predict_proba(transformed_x)
+
+        # a tree whose bootstrap sample missed some classes only knows the others
+        if probas.shape[1] != self.n_classes:
+            new_probas = np.zeros((probas.shape[0], self.n_classes))
+            classes = list(self.classes_)
+            for i, cls in enumerate(estimator.classes_):
+                new_probas[:, classes.index(cls)] = probas[:, i]
+            probas = new_probas
+
+        return probas
 
 
 def fisher_score(X, y, classes=None, class_counts=None):
